@@ -24,8 +24,14 @@ const PAUSE_MAX: u64 = 3_850_000;
 
 impl C11 {
     fn component(&self, sc: &Scenario, ctx: &mut RunCtx) -> Result<(), Fail> {
-        let img = sc.ops.iter().find(|o| o.k == "tape").map(|o| o.b.clone()).unwrap_or_default();
-        let (blocks, tail) = tape::tap_blocks(&img);
+        let mut img = sc.ops.iter().find(|o| o.k == "tape").map(|o| o.b.clone()).unwrap_or_default();
+        if sc.get("long_tape") != 0 {
+            // more than 2^32 T-states (20.5 minutes) of playing: three blocks of 65533 bytes of 0xFF
+            ctx.probe("tape_longer_than_2_pow_32_t");
+            let payload = vec![0xFFu8; 65533];
+            img = tape::make_tap(&[tape::std_block(0xFF, &payload), tape::std_block(0xFF, &payload), tape::std_block(0xFF, &payload)]);
+        }
+        let (mut blocks, tail) = tape::tap_blocks(&img);
         if tail.is_some() || blocks.iter().any(|b| b.is_empty()) {
             return Ok(());
         }
@@ -37,6 +43,30 @@ impl C11 {
         // total nominal duration + slack
         let total: u64 = blocks.iter().map(|b| tape::block_duration(b) + 3_500_000).sum::<u64>();
         let budget = total + total / 40 + 2_000_000;
+        // the fast loader has taken (a part of) the first block before PLAY is pressed: the deck plays the
+        // following blocks, each from its start
+        let fl_pre = sc.get("fl_pre");
+        if fl_pre > 0 && blocks.len() >= 2 {
+            ctx.probe("play_after_partial_fast_load");
+            let ok = tap.next_block().map_err(|e| Fail::new("C11.process_err", "", format!("next_block failed on a well-formed tape: {:?}", e)))?;
+            if !ok {
+                return Err(Fail::new("C11.block_count", "", "next_block() reports the end of a tape of two blocks at its start".into()));
+            }
+            let k = match fl_pre {
+                1 => 1,
+                2 => blocks[0].len() / 2,
+                3 => blocks[0].len().saturating_sub(1),
+                4 => 129.min(blocks[0].len()),
+                _ => blocks[0].len(),
+            };
+            for i in 0..k {
+                let b = tap.next_block_byte().map_err(|e| Fail::new("C11.process_err", "", format!("next_block_byte failed on a well-formed tape: {:?}", e)))?;
+                if b != Some(blocks[0][i]) {
+                    return Err(Fail::new("C11.fast_load_byte", "", format!("byte {} of block 0 through the fast-load interface is {:?}, the tape has {:02X}", i, b, blocks[0][i])));
+                }
+            }
+            blocks.remove(0);
+        }
         tap.play();
         let mut t = 0u64;
         let mut level = tap.current_bit();
@@ -382,7 +412,7 @@ impl Property for C11 {
         vec!["'about one second' is taken as 3.15M..3.85M T (plus one merged pilot pulse)", "component runs observe the EAR level after every step; pulse length = time between observed level changes", "system runs use blocks of at most 300 bytes"]
     }
     fn expected_probes(&self) -> Vec<&'static str> {
-        vec!["block_crosses_refill", "header_pilot", "deck_stopped_at_end", "system_block_loaded", "system_success", "system_failure_outcome", "system_waveform_contended_cpu", "realtime_with_fastload_setting"]
+        vec!["block_crosses_refill", "header_pilot", "deck_stopped_at_end", "system_block_loaded", "system_success", "system_failure_outcome", "system_waveform_contended_cpu", "realtime_with_fastload_setting", "play_after_partial_fast_load", "tape_longer_than_2_pow_32_t"]
     }
 
     fn gen(&self, rng: &mut Rng, tier: Tier, idx: u64) -> Scenario {
@@ -425,6 +455,13 @@ impl Property for C11 {
             sc.set("step_mode", *rng.pick(&[0i64, 0, 0, 1, 2, 3, 4]));
             sc.set("step_seed", (rng.next() >> 8) as i64);
             sc.set("zero_steps", if rng.chance(1, 4) { rng.range(1, 50) } else { 0 });
+            sc.set("fl_pre", if nb >= 2 && rng.chance(1, 3) { rng.range(1, 5) } else { 0 });
+            if idx % 2600 == 107 {
+                sc.set("long_tape", 1);
+                sc.set("step_mode", 1);
+                sc.set("zero_steps", 0);
+                sc.set("fl_pre", 0);
+            }
         } else {
             sc.set("m128", rng.bool() as i64);
             sc.set("mem_seed", (rng.next() >> 8) as i64);
